@@ -209,6 +209,7 @@ func (s *session) runV1(name string, op J) J {
 			r["items"] = v1Items(o.Items)
 			r["count"] = aws.Int64Value(o.Count)
 			r["lek"] = itemFromV1(o.LastEvaluatedKey)
+			r["lek_nil"] = o.LastEvaluatedKey == nil
 		}
 		return r
 	case "scan":
@@ -225,6 +226,7 @@ func (s *session) runV1(name string, op J) J {
 			r["items"] = v1Items(o.Items)
 			r["count"] = aws.Int64Value(o.Count)
 			r["lek"] = itemFromV1(o.LastEvaluatedKey)
+			r["lek_nil"] = o.LastEvaluatedKey == nil
 		}
 		return r
 	case "batch_write":
